@@ -98,8 +98,9 @@ def _rand_c08(rng, tier, sc0):
             # a cleanup that fails at every rotation (a directory sits where the compressed file should go): the size
             # criterion is not affected by it
             c = {"naming": rng.choice(["Num", "NumD"]), "rot": True, "size": rng.choice([30, 60]), "mode": rng.choice(["direct", "buf"]),
-                 "cap": 64, "m": 3, "bg": False, "crlf": False}
-            first = "app_r00000.log.gz" if c["naming"] == "Num" else "app_r00000.log.gz"
+                 "cap": 64, "m": 100000, "bg": False, "crlf": False}
+            # (a limit that is out of reach: the stream stays complete, so that positions in it identify the records)
+            first = "app_r00000.log.gz"
             steps = [{"op": "ExtCreate", "name": first, "dir": True, "content": ""}, {"op": "Start", "append": False}]
             steps += [{"op": "Log", "len": rng.choice([9, 12, 21, 31, 40])} for _ in range(rng.choice([8, 14, 20]))]
             steps.append({"op": "Stop"})
